@@ -42,7 +42,7 @@ pub fn trip(bytes: &[u8], comp: Comp, hash: bool) -> Result<(), Fail> {
 	Ok(())
 }
 
-pub const FORCED: [&str; 8] = ["zero_frames", "no_metadata", "no_end", "no_gecko", "v3.0-3.6", "double_end", "4ports_2ics", "gecko"];
+pub const FORCED: [&str; 9] = ["zero_frames", "no_metadata", "no_end", "no_gecko", "v3.0-3.6", "double_end", "4ports_2ics", "gecko", "metadata_depth_limit"];
 
 fn forced_model(i: usize) -> (ModelGame, Comp, bool, &'static str) {
 	let class = FORCED[i % FORCED.len()];
@@ -66,6 +66,15 @@ fn forced_model(i: usize) -> (ModelGame, Comp, bool, &'static str) {
 	match class {
 		"no_end" => m.end = EndSpec::None,
 		"double_end" => m.end = EndSpec::Two(m.end.bytes().unwrap().clone()),
+		"metadata_depth_limit" => {
+			// 127 levels (the limit) or 128/129 (beyond it: the reader may refuse, but what it accepts must survive)
+			let wraps = 126 + var % 3;
+			let mut t = vec![("leaf".to_string(), crate::model::Meta::Int(1))];
+			for k in 0..wraps {
+				t = vec![(format!("n{}", k % 5), crate::model::Meta::Map(t))];
+			}
+			m.metadata = Some(t);
+		}
 		"gecko" => {
 			let mut b = vec![0u8; 1024];
 			crate::gen::SplitMix(seed).fill(&mut b);
@@ -97,6 +106,10 @@ fn check(ctx: &Ctx, m: &ModelGame, comp: Comp, hash: bool, forced: Option<&str>,
 			ctx.nontrivial(rt::hash_bytes(&h));
 		}
 		ctx.sample_k(if forced.is_some() { "forced" } else { "dna" }, 4, || json!({"model": m.summary(), "compression": comp.name(), "hash": hash}));
+	}
+	let over_limit = m.metadata.as_ref().map_or(false, |t| crate::model::Meta::Map(t.clone()).depth() > 127);
+	if over_limit && matches!(rt::slp_read_default(&bytes), rt::Out::Err(_)) {
+		return Ok(());
 	}
 	trip(&bytes, comp, hash).map_err(|f| {
 		let mut f = f.with_file("slp", &bytes).with_detail(json!({"model": m.summary(), "compression": comp.name(), "hash": hash}));
